@@ -41,7 +41,7 @@ CLASS_LISTS = [[], [4], [3, 4], [4, 4], [7], [1], [37], [31], [4, 7, 3], [7, 37]
 SUB_LISTS = [[], [0x40c], [0x40c, 0x40e], [0x401]]      # BSD subclasses only (the scope of the statement)
 
 
-def gen_dump(rnd, big=False, allow_zero_tid=True, residue_case=False, world=None, orphans=0.0, samples=0.0, learn=0.0, logs=False, declared_terminate=False, remap_in_sample=False):
+def gen_dump(rnd, big=False, allow_zero_tid=True, residue_case=False, world=None, orphans=0.0, samples=0.0, learn=0.0, logs=False, declared_terminate=False, remap_in_sample=False, foreign_decl=False):
     w = world or World(rnd, big_tids=False, allow_zero_tid=allow_zero_tid)
     g = gen.ProgGen(w, rnd, ntids=3, noise=0.02)
     pids = {1: 11, 2: 12, 3: rnd.choice([13, 0])}
@@ -101,6 +101,14 @@ def gen_dump(rnd, big=False, allow_zero_tid=True, residue_case=False, world=None
         fr = [rnd.randrange(0, 9) for _ in range(4)]
         items = [[w.perf(1, t, ti=True, us=True), w.uhdr(t, 3), w.udata(t, fr), w.thd(t, 12, t), w.ntd(o, t, 14), w.nts(o, 'remapped'),
                   w.perf(2, t, ti=True, us=True)], [w.sys('BSC_getpid', 0, t)], [w.term(o, t)], [w.sys('BSC_getpid', 3, t)]] + items
+    hint = None
+    if foreign_decl:
+        # thread o is NOT in the thread map; the only record that declares its process is a sampler thread-info record written
+        # by ANOTHER thread t (profile-every-thread style, class PERF); then o works.  A listing restricted to thread o (and to
+        # that process) still knows the process: the records of every thread are read whatever the thread filter
+        t, o = rnd.sample([1, 2, 3], 2)
+        items = [[w.thd(t, 14, o)], g.ord_single(o), [w.sys('BSC_getpid', 0, o)], g.ord_single(t), [w.sys('BSC_getpid', 3, o)]] + items
+        hint = {'tid': o, 'pid': 14}
     if declared_terminate:
         # a sampler thread-info record (helper class PERF) declares thread 3's process; later a record of another thread NAMES
         # thread 3 (its text reads the table)
@@ -111,7 +119,7 @@ def gen_dump(rnd, big=False, allow_zero_tid=True, residue_case=False, world=None
         smp = lambda: [w.perf(1, t, ti=False, us=True), w.uhdr(t, 4), w.udata(t, fr), w.perf(2, t, us=True)]
         items = [smp(), [w.img(t, rnd.randrange(0, 3), rnd.randrange(1, 6))], smp()] + items
     stream = [e for it in items for e in it]
-    if not residue_case and not declared_terminate and not remap_in_sample and rnd.random() < 0.5:
+    if not residue_case and not declared_terminate and not remap_in_sample and not foreign_decl and rnd.random() < 0.5:
         # the per-CPU buffers merged: every thread's records keep their order, records of OTHER threads fall inside its
         # windows (a parent's announcement inside a sampler window of the announced thread ...)
         per = {}
@@ -135,13 +143,15 @@ def gen_dump(rnd, big=False, allow_zero_tid=True, residue_case=False, world=None
                 slot[(t_, c[:2])] = 'used'
         kept.append(e)
     stream = kept
-    tmap = [(t, pids[t], names[pids[t]]) for t in rnd.sample([1, 2, 3], rnd.randrange(0, 4))]
+    tmap = [(t, pids[t], names[pids[t]]) for t in rnd.sample([1, 2, 3], rnd.randrange(0, 4)) if not (hint and t == hint['tid'])]
     if logs:
         # a version-3 dump with log records (thread 0 = no thread; a record naming a process and a thread extends the tables)
         lg = [(rnd.choice([0, 1, 2, 3, 5]), rnd.choice([11, 12, 14, 0, 44]), rnd.choice(['alpha', 'beta', '', 'kernel_task', 'logger', '12']))
               for _ in range(rnd.randrange(0, 7))]
         return w, Dump(w, stream, tmap, lg, nchunks=rnd.choice([1, 2, 3]))
-    return w, Dump(w, stream, tmap)
+    d_ = Dump(w, stream, tmap)
+    d_.hint = hint
+    return w, d_
 
 
 def gen_cfg(rnd):
@@ -188,7 +198,8 @@ def run(ctx):
     ncli = [0]
     ntext = 0
     for i in range(250 if ctx.quick else 5000):
-        w, dump = gen_dump(rnd, big=not ctx.quick and i % 4 == 0, residue_case=(i % 10 == 5), remap_in_sample=(i % 10 == 7))
+        w, dump = gen_dump(rnd, big=not ctx.quick and i % 4 == 0, residue_case=(i % 10 == 5), remap_in_sample=(i % 10 == 7),
+                           foreign_decl=(i % 10 == 3))
         # the unfiltered run of the code (fresh object): identity -> text
         ref = PyKdebugParser()
         base, btexts = request(w, ref, dump, 'traces')
@@ -196,6 +207,10 @@ def run(ctx):
         p = PyKdebugParser()
         reqs = []
         cfg = gen_cfg(rnd)
+        if getattr(dump, 'hint', None):
+            # a thread declared only by another thread's sampler record: listed alone / by its process
+            cfg = {'ftid': dump.hint['tid'], 'fproc': rnd.choice([{'kind': 'none'}, {'kind': 'pid', 'pid': dump.hint['pid']}]),
+                   'fclass': [], 'fsub': []}
         same_twice = i % 5 == 0                        # the SAME request repeated on the same object
         if same_twice and i % 10 in (0, 5):
             cfg = {'ftid': 0, 'fproc': {'kind': 'none'}, 'fclass': [], 'fsub': []}
